@@ -5,7 +5,7 @@ from props import smf
 def run(ctx):
     q = ctx.quick
     ctx.cov["rule"] = ("write side: random API histories; the unfaulted write fixes total; then for EVERY byte offset k < total (strided in the middle above 400 bytes) a destination "
-                       "that accepts exactly k bytes, in five modes (short count + error / error on the crossing write / one transient failure / short count + io.ErrShortWrite / io.EOF as the error value), a third of the cases with a logger configured: WriteTo must return an error; without fault: "
+                       "that accepts exactly k bytes, in ten modes (short count + error / error on the crossing write / one transient failure / short count + io.ErrShortWrite / io.EOF / io.ErrClosedPipe / *os.PathError{EPIPE} / *os.PathError{ENOSPC} as the error value), a third of the cases with a logger configured: WriteTo must return an error; without fault: "
                        "nil and size = bytes accepted.  read side: valid files; a source that fails with a sticky non-EOF error after k bytes, for every k (two "
                        "fragmentations): if k is before the end of the last track (computed by TLC with SmfParse!Run) the call must return an error. "
                        "distinct by (file, k, mode); non-trivial = fault strictly inside the stream")
